@@ -613,6 +613,9 @@ def orderings_counterexample(f, X, tail, test):
 
 
 def run(repo, R):
+    R.rule("PITFALL", "no result buffer typed after an input, no real cast of a transformation, no unbuffered accumulation / first-occurrence scatter through np.unique")
+    from ..pitfalls import report as _pitfalls
+    _pitfalls(repo, R, ['gbasis.evals.density'])
     R.rule("TERM", "each density routine equals its defining Leibniz sum as a formal sum of G(p,q) atoms")
     R.rule("LEIBNIZ", "evaluate_deriv_density(L) == sum_{l<=L} C(L,l) G(l, L-l) modulo G(p,q)=G(q,p) for every L with components 0..4 (125 triples)")
     R.rule("BACKEND", "inside evaluate_deriv_density the >2 fallback sends exactly the requests with an order > 2 to the general back-end")
